@@ -205,6 +205,10 @@ def parse_terse(out, wanted):
     """terse -j output -> {short harness name: result dict}"""
     cur = {}
     res = {}
+    if not re.search(r"^Thread \d+: ", out, re.M):
+        # single-threaded run: no thread prefixes; normalise to the threaded format
+        out = re.sub(r"^Checking harness ", "Thread 0: Checking harness ", out, flags=re.M)
+        out = re.sub(r"^VERIFICATION RESULT:", "Thread 0: \nVERIFICATION RESULT:", out, flags=re.M)
     blocks = re.split(r"\n(?=Thread \d+: )", out)
     for b in blocks:
         m = re.match(r"Thread (\d+): Checking harness (\S+?)\.\.\.", b)
